@@ -10,7 +10,7 @@ reference assembly  b = sum J^T W e,  H = sum J^T W J  with fixed rows/columns r
 import ast
 
 from .poly import Poly
-from .interp import ga, sa, Arr, Obj, sym_pose, sym_vec, sym_mat, PathRaise
+from .interp import param_const, ga, sa, Arr, Obj, sym_pose, sym_vec, sym_mat, PathRaise
 from .algebra import ObFail, run_obligation, CDIM
 from .model import AnalysisError
 
@@ -163,7 +163,7 @@ def first_linear_system(it, g, ffp):
                         monotonic=lambda *a, **k: Poly.var("t#"))
     it.lossy_ok = True
     try:
-        it.call_method(g, "optimize", [], dict(tol=Poly.var("tol"), max_iter=Poly.const(1), fix_first_pose=ffp, verbose=False))
+        it.call_method(g, "optimize", [], dict(tol=Poly.var("tol"), max_iter=param_const(it, 1), fix_first_pose=ffp, verbose=False))
     except _Captured:
         pass
     finally:
@@ -328,6 +328,14 @@ def real_edges_obligation(kind, fixed=(), ffp=True):
             for f, was in b.items():
                 if snapshot(ga(e, f, None)) != was:
                     raise ObFail("assembling the linear system twice changes the %s of the %s between vertices %s" % (f, ec, list(vs)))
+        # the caller re-weights some edges between two runs (edge.information = W'): the next system uses the new weights
+        spec2 = list(spec)
+        for ei in range(0, len(edges), 2):
+            vs, err, W, Js = spec2[ei]
+            W2 = sym_symmetric("Wnew%d" % ei, W.shape[0])
+            sa(edges[ei], "information", W2)
+            spec2[ei] = (vs, err, Arr([list(r) for r in W2.data], 2), Js)
+        _assemble_and_compare(it, g, verts, dims, spec2, scn, label="third assembly, after the caller assigned new information matrices to some edges: ")
         st["scenario"] = scn.name
         return st
     return lambda pkg: run_obligation(pkg, fn)
@@ -343,6 +351,39 @@ def sequence_obligation(first, second):
         st = _assemble_and_compare(it, g, verts, dims, spec, second,
                                    label="second call on the same graph (fixed set changed from %s to %s): " % (sorted(first.fixed | ({0} if first.ffp else set())), sorted(second.fixed)))
         st["scenario"] = "%s -> %s" % (first.name, second.name)
+        return st
+    return lambda pkg: run_obligation(pkg, fn)
+
+
+def edited_edges_obligation(scn, edit):
+    """Assemble, let the caller change the *edges* (re-weight one: edge.information = W'; or append another edge to the graph's edge
+    list) while the poses stay where they are, assemble again: the second system must be that of the edges as they are now."""
+    from .algebra import custom_edge
+
+    def fn(it):
+        from .interp import gp
+        g, verts, dims, spec = _build(it, scn)
+        _assemble_and_compare(it, g, verts, dims, spec, scn, label="first assembly: ")
+        edges = gp(g, "_edges")
+        if edit == "reweight":
+            vs, err, W, Js = spec[0]
+            W2 = sym_symmetric("Wnew", scn.err_len)
+            sa(edges[0], "information", W2)
+            spec = [(vs, err, W2, Js)] + list(spec[1:])
+            what = "after the caller re-weighted an edge (edge.information = ...)"
+        else:
+            vs = scn.edges[0]
+            m = scn.err_len
+            err, W, Js = sym_vec("eX", m), sym_symmetric("WX", m), [sym_mat("JX_%d" % k, m, dims[v]) for k, v in enumerate(vs)]
+            e = custom_edge(it, [ga(verts[v], "id") for v in vs], W, None, [verts[v] for v in vs])
+            e.stubs["calc_error"] = (lambda err=err: err)
+            e.stubs["calc_jacobians"] = (lambda Js=Js: list(Js))
+            e.stubs["is_valid"] = lambda: True
+            edges.append(e)
+            spec = list(spec) + [(vs, err, W, Js)]
+            what = "after the caller appended an edge to the graph's edge list"
+        st = _assemble_and_compare(it, g, verts, dims, spec, scn, label="second assembly, %s with all poses unchanged: " % what)
+        st["scenario"] = "%s + %s" % (scn.name, edit)
         return st
     return lambda pkg: run_obligation(pkg, fn)
 
